@@ -10,6 +10,13 @@ Oracle: mj_forward on the same model and state: flexvert_xpos, flexedge_length /
 qfrc_spring / qfrc_damper / qfrc_passive (f32dyn), constraint rows (count per type; pos, J, D, aref after
 matching rows inside each (type, id) group; f32dyn), contacts (count; dist/pos/normal after matching by
 (geom, flex, elem, vert) ids; f32dyn), qacc (solver).
+
+Family "params" (contact parameter mixing, MuJoCo's mj_contactParam): flex side x partner side, a side being
+priority in {-1,0,1} x solref format {standard, direct (negative)} x solmix {1, 0, 2.5}, all 18 x 18 ordered pairs, for
+the partner kinds plane, sphere and second flex, plus the 18 sides for self-collision; solref / solimp / friction values
+(one object per role with zero friction), condim {1,3,4,6}, margin {0, .004, .008} and gap {0, .0015} differ between
+all objects of a model.  Oracle: the parameter fields of MuJoCo's contacts of the same pair (solref, effective
+solreffriction, solimp, friction, dim, includemargin; class f32).
 """
 
 import itertools
@@ -23,11 +30,14 @@ LEVEL = "exploration"
 RULE = (
   "enumerate shape x dof x feature x collision, 2 states each, nworld=2 (state A / state B swapped); non-trivial = MuJoCo accepts "
   "the model, put_model accepts it, vertices moved, and the feature under test is active in MuJoCo's result (spring/damper force "
-  "non-zero, equality rows present, contacts present for a collision scenario); distinct = hash of spec"
+  "non-zero, equality rows present, contacts present for a collision scenario); distinct = hash of spec; family params: "
+  "enumerate partner kind x flex side x partner priority (the model holds the 6 partners of that priority), 2 states; non-trivial = "
+  "every (flex, partner) pair of the model has contacts in both engines and its parameters were compared"
 )
 BOUNDS = {
-  "quick": "shapes 1d3,1d4,2d22,2d33,3d222 x dof {full,2d,trilinear} x 5 features x 4 collision modes (compiler/put_model rejections counted)",
-  "thorough": "adds 3d333 and a second value alphabet per scenario",
+  "quick": "shapes 1d3,1d4,2d22,2d33,3d222 x dof {full,2d,trilinear} x 5 features x 4 collision modes (compiler/put_model rejections counted); "
+  "params: 18 flex sides x 18 partner sides (priority x solref format x solmix) x {plane, sphere, flex} on a 2x2 cloth + 18 sides of a self-colliding rope",
+  "thorough": "adds 3d333 and a second value alphabet per scenario; params: also rope and 2x2x2 solid against plane/sphere, rope against rope, 3x3x3 solid self",
 }
 ASSUMPTIONS = [
   "Euler integrator only; MuJoCo C 3.13 mj_forward is the reference",
@@ -37,6 +47,9 @@ ASSUMPTIONS = [
   "deepest-penetration invariant only for dim < 3 (MuJoCo: solid tetrahedra, MJWarp: surface triangles)",
   "models put_model refuses (NotImplementedError / ValueError) are outside the property ('accepted models'); an IndexError from put_model is reported as such",
   "real values (stiffness, Young modulus, perturbation amplitudes) from 4 curated alphabets (VERIF_SEED mod 4)",
+  "params: contact.solreffriction is compared by its effective value (all-zero means 'same as solref' to the constraint builder of both engines; "
+  "MuJoCo stores zeros for flex contacts, MJWarp a copy of solref)",
+  "params: pairs stay in clear penetration (no contact at the margin / gap boundary); contact sets and geometry are left to the parity scenarios",
 ]
 BUDGET = {"quick": 400, "thorough": 3000}
 
@@ -47,6 +60,20 @@ COLLISIONS = ("none", "self", "sphere", "plane")
 YOUNG = (2e3, 3e3, 1.5e3, 2.5e3)
 EDGEK = (80.0, 60.0, 100.0, 70.0)
 AMP = (0.02, 0.015, 0.025, 0.018)
+
+# Family "params" (contact parameter mixing, mj_contactParam): a "side" is what one of the two colliding objects
+# contributes to the mix: priority x solref format x solmix; the remaining per-object parameters (solref / solimp /
+# friction values, condim, margin, gap) are a function of the side index and of the role (flex or partner), chosen so
+# that no two objects of a model carry the same values.
+PRIOS = (-1, 0, 1)
+SOLREF_FMT = ("std", "direct")
+SOLMIX = (1.0, 0.0, 2.5)
+SIDES = tuple(itertools.product(PRIOS, SOLREF_FMT, SOLMIX))
+PKINDS = ("plane", "sphere", "flexflex", "self")
+CONDIMS = (1, 3, 4, 6)
+MARGINS = (0.0, 0.004, 0.008)
+GAPS = (0.0, 0.0, 0.0015)
+PARAM_FIELDS = (("solref", 0, 2), ("solreffriction", 2, 4), ("solimp", 4, 9), ("friction", 9, 14), ("dim", 14, 15), ("includemargin", 15, 16))
 
 
 def scenarios(tier, seed):
@@ -59,6 +86,16 @@ def scenarios(tier, seed):
   # full forward() including the sensor stage on states with flex contacts, in a child process (see _CHILD)
   for shape, dof, col in (("1d4", "full", "self"), ("1d4", "2d", "self"), ("2d33", "full", "sphere"), ("2d33", "full", "plane"), ("3d222", "trilinear", "sphere")):
     out.append(dict(fam="sensor_stage", shape=shape, dof=dof, feature="edgeeq", collision=col, variant=v))
+  # contact parameter mixing: the flex takes every side of SIDES in turn; a model holds the six partners (solref format
+  # x solmix) of one partner priority (MuJoCo keeps at most 50 contacts per flex, so not all 18 partners at once)
+  pshapes = {"plane": ["2d22"], "sphere": ["2d22"], "flexflex": ["2d22"], "self": ["1d4"]}
+  if tier != "quick":
+    pshapes = {"plane": ["2d22", "1d4", "3d222"], "sphere": ["2d22", "1d4", "3d222"], "flexflex": ["2d22", "1d4"], "self": ["1d4", "3d333"]}
+  for kind in PKINDS:
+    for shape in pshapes[kind]:
+      for side, pprio in itertools.product(range(len(SIDES)), [None] if kind == "self" else range(len(PRIOS))):
+        for vv in [v] if tier == "quick" else [v, (v + 1) % 4]:
+          out.append(dict(fam="params", kind=kind, shape=shape, side=side, pprio=pprio, variant=vv))
   return out
 
 
@@ -96,14 +133,14 @@ def build_xml(scn):
   )
 
 
-def make_state(mjm, scn, which):
+def make_state(mjm, scn, which, amp=None, fold=None):
   import mujoco
 
   v = scn["variant"]
   k = np.arange(mjm.nq)
-  q = np.array(mjm.qpos0) + AMP[v] * np.sin(k * 1.7 + which)
+  q = np.array(mjm.qpos0) + (AMP[v] if amp is None else amp) * np.sin(k * 1.7 + which)
   qv = 0.2 * np.cos(np.arange(mjm.nv) * 1.3 + which)
-  if which == 1 and mjm.nflexvert >= 4:
+  if (which == 1 if fold is None else fold) and mjm.nflexvert >= 4:
     # fold: bring the last vertex (if it owns translational dofs) close to the first one
     d0 = mujoco.MjData(mjm)
     mujoco.mj_forward(mjm, d0)
@@ -381,9 +418,223 @@ def _exec_sensor_stage(scn):
   return c.result(nontrivial=ncon > 0, key=util.sha(scn), info=dict(ncon=ncon))
 
 
+# ------------------------------------------------------------------------------------------------ family "params"
+
+
+def side_values(j, role, v):
+  """Contact attributes of side j in the given role ("flex" or "partner"), value alphabet v."""
+  prio, fmt, solmix = SIDES[j]
+  r = 1 if role == "flex" else 0
+  t = j + 0.5 * r + 0.25 * v
+  solref = (0.02 + 0.002 * t, 0.9 + 0.03 * t) if fmt == "std" else (-(1000.0 + 100.0 * t), -(40.0 + 3.0 * t))
+  fri = (0.0, 0.0, 0.0) if j == (9 if r else 4) else (0.3 + 0.05 * t, 0.01 + 0.002 * t, 0.001 + 0.0002 * t)
+  return dict(
+    priority=prio,
+    solmix=solmix,
+    solref=solref,
+    solimp=(0.80 + 0.005 * t, 0.90 + 0.004 * t, 0.001 + 0.0001 * t, 0.5, 2.0),
+    friction=fri,
+    condim=CONDIMS[(j + 2 * r) % 4],
+    margin=MARGINS[(j // 2 + r) % 3],
+    gap=GAPS[(j + j // 3 + 2 * r) % 3],
+  )
+
+
+def _attr_str(a):
+  def f(x):
+    return " ".join(f"{y:.6g}" for y in x)
+
+  return (
+    f'priority="{a["priority"]}" solmix="{a["solmix"]:g}" solref="{f(a["solref"])}" solimp="{f(a["solimp"])}" '
+    f'friction="{f(a["friction"])}" condim="{a["condim"]}" margin="{a["margin"]:g}" gap="{a["gap"]:g}"'
+  )
+
+
+def side_text(j, role, v):
+  a = side_values(j, role, v)
+  return f"{role}(side {j}: priority {a['priority']}, solref {SIDES[j][1]}, solmix {a['solmix']:g}, condim {a['condim']}, margin {a['margin']:g}, gap {a['gap']:g})"
+
+
+def partner_sides(scn):
+  """Side indices of the partners of the model, in the order of their geom / flex ids."""
+  return [] if scn["kind"] == "self" else [j for j in range(len(SIDES)) if SIDES[j][0] == PRIOS[scn["pprio"]]]
+
+
+def build_params_xml(scn):
+  cnt, dim = SHAPES[scn["shape"]]
+  v, kind, i = scn["variant"], scn["kind"], scn["side"]
+  partners = partner_sides(scn)
+  fa = _attr_str(side_values(i, "flex", v))
+  world, more = "", ""
+  if kind == "self":
+    fc = f'<contact selfcollide="auto" {fa}/>'
+  elif kind == "flexflex":
+    # f collides with every g (contype/conaffinity 1/2 against 2/1), the g do not collide with each other
+    fc = f'<contact selfcollide="none" contype="1" conaffinity="2" {fa}/>'
+    for j in partners:
+      ga = _attr_str(side_values(j, "partner", v))
+      more += (
+        f'<flexcomp name="g{j}" type="grid" count="{cnt}" spacing="0.1 0.1 0.1" pos="0.05 {0.05 if dim > 1 else 0.0} 0.515" radius="0.01" dim="{dim}" mass="1">'
+        f'<edge equality="true"/><contact selfcollide="none" contype="2" conaffinity="1" {ga}/></flexcomp>'
+      )
+  else:
+    fc = f'<contact selfcollide="none" {fa}/>'
+    for j in partners:
+      ga = _attr_str(side_values(j, "partner", v))
+      if kind == "plane":
+        world += f'<geom name="p{j}" type="plane" size="2 2 .1" pos="0 0 0.495" {ga}/>'
+      else:
+        world += f'<geom name="p{j}" type="sphere" size="0.1" pos="0.05 0.04 0.42" {ga}/>'
+  return (
+    f'<mujoco><option integrator="Euler"/><worldbody>{world}'
+    f'<flexcomp name="f" type="grid" count="{cnt}" spacing="0.1 0.1 0.1" pos="0 0 0.5" radius="0.01" dim="{dim}" mass="1">'
+    f'<edge equality="true"/>{fc}</flexcomp>{more}'
+    "</worldbody></mujoco>"
+  )
+
+
+def _param_rows(geom, flex, elem, vert, solref, solreffriction, solimp, friction, dim, includemargin):
+  """Per contact: (pair key, full id key, parameter vector).  solreffriction == 0 means "same as solref" to the
+  constraint builder of both engines, so the effective value is compared."""
+  out = []
+  for i in range(len(dim)):
+    g = (int(geom[i][0]), int(geom[i][1]))
+    a, b = (int(flex[i][0]), int(elem[i][0]), int(vert[i][0])), (int(flex[i][1]), int(elem[i][1]), int(vert[i][1]))
+    if g[0] < 0 and g[1] < 0 and b < a:
+      a, b = b, a
+    srf = np.asarray(solreffriction[i], np.float64)
+    if not np.any(srf):
+      srf = np.asarray(solref[i], np.float64)
+    vec = np.concatenate([np.asarray(solref[i], np.float64), srf, np.asarray(solimp[i], np.float64), np.asarray(friction[i], np.float64), [float(dim[i])], [float(includemargin[i])]])
+    out.append(((max(g), a[0], b[0]), (g, a, b), vec))
+  return out
+
+
+def compare_params(c, pre, scn, mjm, d, w, mjd, deferred):
+  """Parameter fields of the contacts of every (geom, flex) / (flex, flex) pair against MuJoCo's.  Contacts with the
+  same integer ids on both sides are compared one to one; pairs whose manifolds differ by design (flex against convex
+  geom) are compared through the pair's parameter vector, which MuJoCo computes once per pair."""
+  kind, v = scn["kind"], scn["variant"]
+  n = int(min(d.nacon.numpy()[0], d.naconmax))
+  sel = np.nonzero(d.contact.worldid.numpy()[:n] == w)[0]
+  k = d.contact
+  A = _param_rows(*[getattr(k, f).numpy()[:n][sel] for f in ("geom", "flex", "elem", "vert", "solref", "solreffriction", "solimp", "friction", "dim", "includemargin")])
+  mc = mjd.contact
+  B = _param_rows(mc.geom, mc.flex, mc.elem, mc.vert, mc.solref, mc.solreffriction, mc.solimp, mc.friction, mc.dim, mc.includemargin)
+  deep_m = {}
+  for i in range(mjd.ncon):
+    deep_m[B[i][0]] = min(deep_m.get(B[i][0], np.inf), float(mc.dist[i] - mc.includemargin[i]))
+  pairs_a, pairs_b = {}, {}
+  for rows, pairs in ((A, pairs_a), (B, pairs_b)):
+    for pk, fk, vec in rows:
+      pairs.setdefault(pk, {}).setdefault(fk, []).append(vec)
+
+  partners = partner_sides(scn)
+
+  def partner_of(pk):
+    # partner geoms have ids 0..5; partner flexes ids 1..6 (the flex under test is flex 0)
+    g, f0, f1 = pk
+    return partners[g] if g >= 0 else partners[max(f0, f1) - 1]
+
+  def describe(pk):
+    if kind == "self":
+      return side_text(scn["side"], "flex", v) + " against itself"
+    return side_text(scn["side"], "flex", v) + " x " + side_text(partner_of(pk), "partner", v)
+
+  def gap_of(pk):
+    if kind == "self":
+      return side_values(scn["side"], "flex", v)["gap"] * 2
+    return side_values(scn["side"], "flex", v)["gap"] + side_values(partner_of(pk), "partner", v)["gap"]
+
+  def cmp_vec(pk, got, want, how):
+    for name, lo, hi in PARAM_FIELDS:
+      key = f"contact_param_{name}:{kind}"
+      if name == "includemargin" and gap_of(pk) != 0.0:
+        # own class (objects with a gap), checked after everything else: Cmp keeps the first 12 violations of a scenario
+        deferred.append((f"{pre}{describe(pk)}: contact.{name} ({how})", got[lo:hi], want[lo:hi], key + ":gap"))
+        continue
+      if name == "dim":
+        c.equal(f"{pre}{describe(pk)}: contact.dim ({how})", int(got[lo]), int(want[lo]), vkey=key)
+      else:
+        c.close(f"{pre}{describe(pk)}: contact.{name} ({how})", got[lo:hi], want[lo:hi], "f32", vkey=key)
+
+  npairs = 0
+  for pk in sorted(set(pairs_a) | set(pairs_b)):
+    if pk not in pairs_a:
+      # boundary rule as in compare_geom_flex_invariants: only a pair MuJoCo sees clearly inside its margin counts
+      if deep_m[pk] < -1e-5:
+        c.fail(f"contact_param_pair_missing:{kind}", f"{pre}{describe(pk)}: MuJoCo has contacts for the pair (dist - includemargin {deep_m[pk]:.5f}), MJWarp has none")
+      continue
+    if pk not in pairs_b:
+      continue  # contact sets are the business of the parity scenarios
+    npairs += 1
+    uniq_b = np.unique(np.array([x for rows in pairs_b[pk].values() for x in rows]), axis=0)
+    done = set()
+    for fk in sorted(pairs_a[pk]):
+      for got in pairs_a[pk][fk]:
+        if fk in pairs_b[pk]:
+          want, how = pairs_b[pk][fk][0], f"contact ids {fk}"  # several contacts with the same ids carry the same parameters in MuJoCo
+        elif len(uniq_b) == 1:
+          want, how = uniq_b[0], "pair parameters"
+        else:
+          continue
+        sig = (got.tobytes(), want.tobytes())
+        if sig not in done:  # equal (got, want) vectors of a pair are reported once
+          done.add(sig)
+          cmp_vec(pk, got, want, how)
+  return npairs
+
+
+def _exec_params(scn):
+  import mujoco
+  import mujoco_warp as mjw
+
+  xml = build_params_xml(scn)
+  mjm, err = util.try_load(xml)
+  if mjm is None:
+    return dict(ok=True, nontrivial=False, outcome="rejected_by_compiler", info=err, key=util.sha(scn))
+  try:
+    m = mjw.put_model(mjm)
+  except (NotImplementedError, ValueError) as e:
+    return dict(ok=True, nontrivial=False, outcome="unsupported", info=str(e)[:200], key=util.sha(scn))
+  c = util.Cmp()
+  refs = []
+  for which in (0, 1):
+    # small perturbation: every pair stays in penetration, far from the margin boundary; self: folded in both states
+    q, qv = make_state(mjm, scn, which, amp=0.002 + 0.001 * which, fold=scn["kind"] == "self")
+    mjd = util.mj_data(mjm, qpos=q, qvel=qv)
+    try:
+      mujoco.mj_forward(mjm, mjd)
+    except mujoco.FatalError as e:
+      return dict(ok=True, nontrivial=False, outcome="mujoco_fatal", info=str(e)[:200], key=util.sha(scn))
+    refs.append(mjd)
+  d = mjw.make_data(mjm, nworld=2, njmax=max(128, 3 * max(r.nefc for r in refs) + 64), nconmax=max(4096, 8 * max(r.ncon for r in refs) + 64))
+  util.copy_state(refs[0], d, world=0)
+  util.copy_state(refs[1], d, world=1)
+  mjw.kinematics(m, d)
+  mjw.flex(m, d)
+  mjw.collision(m, d)
+  ovf = d.overflow.numpy()
+  npairs, deferred = [], []
+  for w, mjd in enumerate(refs):
+    pre = f"state{w}:"
+    c.true(pre + "no capacity overflow in the harness", int(ovf[w]) & 0xFF == 0, f"overflow={int(ovf[w])}", vkey="harness_capacity")
+    npairs.append(compare_params(c, pre, scn, mjm, d, w, mjd, deferred))
+  for name, got, want, key in deferred:
+    c.close(name, got, want, "f32", vkey=key)
+  want = 1 if scn["kind"] == "self" else len(partner_sides(scn))
+  return c.result(
+    nontrivial=max(npairs) >= want,
+    key=util.sha(scn),
+    info=dict(nv=int(mjm.nv), ncon=[int(r.ncon) for r in refs], pairs=npairs, checked=c.nchecked),
+  )
+
+
 def execute(scn):
   if scn.get("fam") == "sensor_stage":
     return _exec_sensor_stage(scn)
+  if scn.get("fam") == "params":
+    return _exec_params(scn)
   import mujoco
   import mujoco_warp as mjw
 
